@@ -1148,7 +1148,7 @@ class ControlDTCSettingRequest(
     @property
     def pdu(self) -> bytes:
         return (
-            pack("!BB", self.SERVICE_ID, self.dtc_setting_type)
+            pack("!BB", self.SERVICE_ID, self.sub_function_with_suppress_response_bit)
             + self.dtc_setting_control_option_record
         )
 
